@@ -65,7 +65,7 @@ def run(ctx, chk):
                 kind, st_, from_step = um.published(chk, i, ceb)
                 chk.ob('C01.W1', 'record.status<-fsm', (kind == 'fsm' and from_step) or (kind, st_) == ('const', 'Unknown'), where,
                        'status <- %s' % st[:80])
-        chk.floor('C01.W1', 'publishing paths', sum(1 for i in um.infos if i['records']), 5)
+        chk.floor('C01.W1', 'publishing paths', sum(1 for i in um.infos if i['records']), 2)
     if pm.ok:
         eng = pm.engine
         dests = set()
@@ -90,7 +90,7 @@ def run(ctx, chk):
                 ok = bool(reads) and asof == payload(T('call', reads[-1][2]['callee'], reads[-1][0], *reads[-1][2]['args']), 'Ok')
                 chk.ob('C01.W1', 'message.as_of<-pre-query-monotonic-read', ok, info['sends'][0][1]['site'][2], 'message as_of <- %s' % fmt(asof)[-60:])
                 chk.ob('C01.W1', 'message.tracking<-chrony-reply', mentions_query(tr), info['sends'][0][1]['site'][2], 'message tracking <- %s' % fmt(tr)[-60:])
-        chk.floor('C01.W1', 'data-message paths in the poll loop', n_data, 2)
+        chk.floor('C01.W1', 'data-message paths in the poll loop', n_data, 1)
         # the writer loop runs in the thread that owns the mailbox the poller sends to: C15.N2 pairing, re-evaluated
         from . import C15
         sub = type(chk)('C01', LEVEL, chk.tier)
